@@ -1,7 +1,9 @@
 """C16 — Components listings, lookups and events stay mutually consistent (DESIGN.md section 5, C16)."""
 import json
+import os
 
 from .. import common as C
+from ..translate import components as TR
 from . import regcommon as RC
 
 ID = "C16"
@@ -16,7 +18,24 @@ THEOREMS = [
     "C16_events_exact_refuted_adapter_overwrite", "C16_events_exact_partial",
     "C16_unregister_returns_removed", "C16_replace_order", "C16_pruning_never_hides",
     "C16_queryUtility_from_listings",
+    "C16_generated_counter_eq_model", "C16_generated_utility_cache_eq_model", "C16_generated_utilities_eq_model",
+    "C16_generated_adapters_eq_model", "C16_generated_subscriptions_eq_model",
 ]
+REGISTRY_PY = os.path.join(C.REPO, "src", "zope", "interface", "registry.py")
+GEN = os.path.join(C.COQ, "Gen", "ComponentsKernel.v")
+
+
+def regenerate(run):
+    """Re-translate the bookkeeping kernels of registry.py into coq/Gen/ComponentsKernel.v (fail closed)."""
+    try:
+        C.write_if_changed(GEN, TR.translate_file(REGISTRY_PY))
+        return []
+    except Exception as e:  # noqa: refuse, report, keep the pipeline alive on the pinned kernel
+        C.write_if_changed(GEN, TR.pinned())
+        return ["harness/translate/components.py refused %s (%s: %s); coq/Gen/ComponentsKernel.v holds the pinned "
+                "kernel, so the theorems C16_generated_*_eq_model are NOT about the current source"
+                % (REGISTRY_PY, type(e).__name__, e)]
+
 RULE = ("histories of 5-40 calls of the eight register*/unregister* methods (+ re-__init__) on one Components "
         "over a generated interface/class world, with identical / equal-but-distinct / unhashable / falsy components, "
         "several names and infos, related provided interfaces, explicit / factory= / inferred / class-valued "
@@ -24,6 +43,10 @@ RULE = ("histories of 5-40 calls of the eight register*/unregister* methods (+ r
         "(12 after the last call); a case is non-trivial when it registers a utility and at least one "
         "unregister call returned True; distinct = distinct (first 12 op kinds, permitted finding shape)")
 TRUSTED_BASE = [
+    "harness/translate/components.py: the fixed abstraction tables of the translator (a cache value is a dict or the "
+    "generated counter; counts are naturals; the KeyError marked unreachable is 'no change'; dictionary reads are "
+    "pure; inference helpers are oracles; factory= is a pair (identity, component returned); names of subscription "
+    "/ handler registrations are dropped only when the source guarantees them empty)",
     "Model/Adapter.v storage + uncached walkers (shared registry model; lookup caches assumed transparent: C05)",
     "components as (identity, equality class, hashable) with __hash__ consistent with __eq__ and hashability "
     "determined by the equality class",
@@ -578,7 +601,11 @@ def replay_text(case, obs, mode):
 TECHNIQUE = ("Coq proofs by induction over histories about a Gallina transcription of registry.py (Components, "
              "_UtilityRegistrations) on top of the shared adapter-registry model; refinement to a ledger Spec; "
              "vm_compute correspondence with both implementations and a ledger-only Spec oracle on their raw answers")
-LEVEL_TEXT = ("Machine-checked theorems (Properties/C16.v, 11 theorems, closed under the global context) state for every "
+LEVEL_TEXT = ("The bookkeeping kernels of registry.py (_UnhashableComponentCounter, _UtilityRegistrations, the eight "
+              "register/unregister methods and four listings of Components) are re-translated from the current source text "
+              "into Gallina on every run by a fail-closed translator and proved equal to the model for all states and "
+              "arguments (5 theorems C16_generated_*_eq_model). "
+              "Machine-checked theorems (Properties/C16.v, 16 theorems, closed under the global context) state for every "
               "history of the eight mutators and re-initialisation that the four listings equal the Spec ledger, that both "
               "underlying registries hold exactly what the listings determine and that their pruning structures never "
               "hide a stored registration, that queryUtility answers from the listings, that the probe finds nothing, that "
@@ -589,5 +616,7 @@ LEVEL_TEXT = ("Machine-checked theorems (Properties/C16.v, 11 theorems, closed u
 LEVEL_NOTE = ("Trusted: Coq kernel/vm_compute; the hand transcription of registry.py and the shared Model/Adapter.v "
               "(validated by the correspondence on every run); query methods are tied to the listings at storage level "
               "and (utilities) lookup level only; most-specific-adapter / subscription order are C04/C07's theorems. "
+              "Still hand-modelled (tied by the correspondence only): rebuildUtilityRegistryFromLocalCache, the query methods, "
+              "__init__, the _utility_registrations_cache property, the inference helpers. "
               "event=False, inference of provided/required/name, bases, pickling are outside the model (inference is "
               "exercised by the tie with the inferred values made explicit in the model).")
